@@ -10,6 +10,13 @@ COMMON_NOTE = ("Trusted: Coq 8.16.1 kernel + vm_compute; the hand-written execut
 
 # id -> (claimed?, full/partial text, technique, level_note extra, design_ref)
 PROPS = {
+    "C03": (True, "Full. For every position with size^2 squares: every canonical move the rules accept is in all_moves (exactly once: "
+            "NoDup and count_occ = 1), everything generated is an entry of the id table of the size (all sizes; with ids below the head "
+            "width for 3-6), the table entries the rules accept are exactly the canonical legal moves, so filtering the table (what "
+            "the search does) reaches each legal move once. 'Legal' is the executable rules `move`, proved equal to the rulebook "
+            "relation in C01. The generator is a pseudo-legal superset by design; the property asks for completeness and uniqueness.",
+            "Coq theorem (list membership/NoDup over flat_map) + regenerated constants + differential correspondence in Coq (lists compared in order) + independent move-universe oracle",
+            "The harness's independent enumerator of the move universe and ill-formed stream used by the search oracle.", "6/C03"),
     "C05": (True, "Full for the listed functions under the stated CPython semantics of the IR constructs. A heap-effect IR of "
             "Position.move (_move_place/_move_slide inlined), from_squares, from_config, parse_tps (parse_row inlined) and "
             "transform_position is REGENERATED from the source on every run by a fail-closed ast translator; theorem: a program all "
@@ -29,6 +36,14 @@ PROPS = {
             "live vocabulary.",
             "Coq theorem (induction over the board with decode's current-square accumulator) + regenerated vocabulary + differential correspondence in Coq",
             "torch tensor <-> list conversions in the harness; Python negative indexing modelled faithfully outside the domain.", "6/C06"),
+    "C15": (True, "Full. The eight regenerated matrices are the dihedral group of the square (distinct maps, closed under composition and "
+            "inverse, signed permutation linear parts, bijections of the board preserving adjacency, for every size); for every "
+            "symmetry, every position with size^2 squares and EVERY move (legal, illegal, off-board, malformed): transform then move "
+            "= move then transform as option results, hence legality is preserved both ways; winner (roads may change axis), ply, "
+            "side to move and reserves are invariant; symmetries(p) starts with (id, p), has pairwise distinct positions and is "
+            "exactly the orbit.",
+            "Coq theorem (slide loop invariant under a board permutation; road paths mapped through the symmetry) + regenerated matrices + differential correspondence in Coq",
+            "numpy integer matmul/astype as used by symmetry.py (validated by the correspondence); identity must stay first in SYMMETRIES.", "6/C15"),
     "C16": (True, "Partial. The dataflow IR of the forward/__init__ methods (Resblock, Torso, embeddings, Transformer, both heads), "
             "of encoding._encode_batch and of every mask producer and model call site (batch classes, ReplayBufferBatch, "
             "Server.run_model, ModelWrapper.evaluate) is REGENERATED from the source on every run by a fail-closed ast translator "
@@ -42,6 +57,24 @@ PROPS = {
             "Translator harness/xformer_ir.py; assumed semantics of nn.MultiheadAttention masks (masked keys get weight exactly 0) and "
             "of LayerNorm/Linear/Embedding acting per token; Reals axioms sig_forall_dec, sig_not_dec, functional_extensionality_dep "
             "in C16_evaluate_is_distribution_partial only.", "6/C16"),
+    "C17": (True, "Partial. Over ALL event sequences (arrivals, timer expiries, model completions) of a state-machine model of "
+            "worker_loop/Evaluate with the bounded queue, blocked putters and the gather/drain batching rule: service order is arrival "
+            "order, each request is answered at most once, with the model's value on its own position (given per-row padding "
+            "invariance, which C16 supplies), nothing is lost, everything is answered at quiescence, a pending request at depth k is "
+            "answered within k+1 (tight: 2 + k/capacity) model completions; the float32 byte codec round-trips. What the model cannot "
+            "exhibit: real thread scheduling, the gRPC transport, cancellation races, equal timer deadlines.",
+            "Coq theorem (invariant over all event sequences of a state machine) + schedule-level differential correspondence on a virtual-time asyncio loop",
+            "Virtual-time event loop and inline executor of the harness; shims for grpc/protobuf; gather timeout 1 ms is a literal in the model (tie behavioural only).", "6/C17"),
+    "C19": (True, "Partial. The file-system operation sequence of SavingHook.save_snapshot and the read set of load_state / "
+            "load_or_init_model are REGENERATED from the source on every run (fail-closed ast translator) and tied to the model; "
+            "over a file-system model with writes split into truncate+complete: for EVERY history of saves (periodic, on request, "
+            "end of run, repeated saves of a step, interrupted-then-resumed runs) and EVERY crash prefix, resume yields a complete "
+            "snapshot (the previous or the new one), never a partial one and never scratch once a save completed; save/load exact "
+            "per component under a codec round-trip hypothesis; replay window = last min(k,cap) batches; serve/train mode round trip "
+            "exact. Process-crash granularity only: fsync/power-loss reordering is outside the model. One known finding "
+            "(serve-precision-snapshot) is reported by the check.",
+            "Coq theorem (invariant over histories and crash prefixes of a file-system model) + FS-op IR regenerated from the source (translator tie) + crash-injection correspondence",
+            "Translator harness/save_ir.py; patched os/shutil/open/torch.save fault injector; torch.save/load and yaml round-trip their payloads (checked bit-exact); os.rename/replace/symlink atomic at process-crash granularity.", "6/C19"),
     "C07": (True, "Full. Theorems for every size n: the id table lists exactly the well-formed moves (table_spec), without "
             "repetition, encode/decode are mutual inverses between [0,|table n|) and the move universe; width bound proved for "
             "sizes 3-6 by computation. Tie is exhaustive: every id and move of sizes 0-6 compared with the model inside Coq.",
